@@ -586,6 +586,67 @@ def euler_shape_clause(repo, res, rid):
     return res
 
 
+_VIEW_METHODS = {'view', 'detach', 'squeeze', 'unsqueeze', 'transpose', 'permute', 'narrow', 'select', 'as_subclass', 'requires_grad_', 'view_as', 'unflatten', 'movedim',
+                 'swapaxes', 'lview', 'tensor', 'to', 'type', 'float', 'double'}
+_STRIDE0 = {'expand', 'expand_as', 'broadcast_to'}
+
+
+def _shared_items(e, depth=0):
+    """the `expand` call that makes the items of the value `e` share memory (a stride-0 view), or None: follows view-preserving wrappers only"""
+    while depth < 20:
+        depth += 1
+        if isinstance(e, ast.Call):
+            d = dotted(e.func) or ''
+            if isinstance(e.func, ast.Name) and e.func.id in ('LieTensor', 'Parameter') and e.args:
+                e = e.args[0]
+                continue
+            if d in ('torch.broadcast_to',) and e.args:
+                return e
+            if isinstance(e.func, ast.Attribute) and not d.startswith('torch.'):
+                if e.func.attr in _STRIDE0:
+                    return e
+                if e.func.attr in _VIEW_METHODS:
+                    e = e.func.value
+                    continue
+            return None
+        if isinstance(e, ast.Subscript):
+            e = e.value
+            continue
+        if isinstance(e, ast.Attribute) and e.attr in ('mT', 'T', 'data'):
+            e = e.value
+            continue
+        return None
+    return None
+
+
+@guarded
+def rule_ownmem(repo, tier):
+    """A constructor hands out a tensor the caller may write into item by item (`x[i] = T`, `x.add_(..)`, an optimiser step on Parameter(x)).  Built with
+    `expand` the batch is a stride-0 view: every item is the same memory, an item write changes all of them and whole-batch in-place operations raise.  The
+    payload of every identity / randn constructor is therefore materialised (repeat / a fresh tensor), never an expanded view."""
+    res = RuleResult('C06.OWNMEM', 'the identity / randn constructors of every LieType return a tensor whose items own their memory: the payload is never an '
+                     'expand / expand_as / broadcast_to view (followed through view-preserving wrappers)', floor=8)
+    for c in repo.module(LT).classes.values():
+        for name, f in c.methods.items():
+            if name not in ('identity', 'randn', 'identity_like', 'randn_like'):
+                continue
+            for r in returns_of(f.node):
+                if r.value is None:
+                    continue
+                v = inline_straight(f.node, upto=r).value(r.value)
+                hit = _shared_items(v)
+                res.inst({'function': f.fq, 'returned payload': src(v)[:70], 'stride-0 view': src(hit)[:50] if hit is not None else None}, (f.fq, src(r.value)[:50]))
+                if hit is not None:
+                    res.add(Finding('C06.OWNMEM', f, '%s returns `%s`: an expanded view, all items of the batch are ONE memory location - `x[i] = T` overwrites every item, '
+                                    'add_ / copy_ / an optimiser step on the whole batch raise "more than one element of the written-to tensor refers to a single memory '
+                                    'location"' % (f.fq.split(':')[-1], src(hit)[:60]), node=r, construct='constructor returns a stride-0 view'))
+    fx = ast.parse('LieTensor(d.expand(s + (-1,)), ltype=T)', mode='eval').body
+    fy = ast.parse('LieTensor(d.expand(s + (-1,)).clone(), ltype=T)', mode='eval').body
+    if _shared_items(fx) is None or _shared_items(fy) is not None:
+        raise AnalysisError('C06.OWNMEM: fixtures no longer classified')
+    return res
+
+
 @guarded
 def rule_width(repo, tier):
     """The storage width of a LieTensor (the extent of its last axis) is `ltype.dimension`; `embedding` and `manifold` are other numbers for the algebra types
@@ -611,7 +672,7 @@ def rule_width(repo, tier):
 
 
 def _rules_core(repo, tier):
-    return [rule_like(repo, tier), rule_domain(repo, tier), rule_mut(repo, tier), rule_patch(repo, tier), rule_bcast(repo, tier), rule_wrap(repo, tier), rule_dtype(repo, tier), rule_width(repo, tier)]
+    return [rule_like(repo, tier), rule_domain(repo, tier), rule_mut(repo, tier), rule_patch(repo, tier), rule_bcast(repo, tier), rule_wrap(repo, tier), rule_dtype(repo, tier), rule_width(repo, tier), rule_ownmem(repo, tier)]
 
 
 def rules(repo, tier):
